@@ -288,9 +288,13 @@ example {R : Type} (rn : List Nat → Option (Num R)) :
   · intro x hx; simp at hx; subst hx; unfold plainU; decide
   · intro x hx; simp at hx; subst hx; unfold plainU; decide
 
-/-- stage 7 of `RenderParsePrint`: TREES of segment runs, `<if>`/`<elseif>`/`<else />` chains and
+/-- stages 7 + 8 + 9 of `RenderParsePrint`: TREES of segment runs, inline `{if case="e" true="T" false="F"}`
+tags (either value may be missing, not both; `T`, `F` runs of segments free of `"`; the tag shorter
+than 65536 units), super variables `{svar:path, a1, …, an}` (1 ≤ n ≤ 10, every `ai` a `{var:}`,
+`{raw:}` or `{math:}` tag; the path free of `,` and not starting with the value name of an enclosing
+loop — the code reads a super variable's path from the root only), `<if>`/`<elseif>`/`<else />` chains and
 `<loop [set="S"] value="V">` loops, nested in any order to any depth (`GTs`): loops inside loops, ifs
-inside loops, loops inside if branches; loop variables in `{var:}`, `{raw:}`, `{math:}` operands,
+inside loops, loops inside if branches, inline ifs anywhere; loop variables in `{var:}`, `{raw:}`, `{math:}` operands,
 `case=` operands and in the `set=` of an inner loop; shadowing of an outer value name by an inner
 one.  For EVERY value, number reader, formatter and escape switch: parse + render = the documented
 expansion.  The exact class:
@@ -315,12 +319,26 @@ bindings: both pick the first entry whose name is the path's name); `evalExprs_e
 item, the items of the enclosing loops untouched at their levels: `ItemsOk`); `render_gt` /
 `render_gts` / `render_gtail`; `expand_gt` on the reference side.  Render fuel `rneedGTs` and
 reference fuel `eneedGTs` depend on the value (one unit per loop item, summed over nested loops).
-Not covered: `{svar:}`, inline `{if}`, `sort=`/`group=`. -/
+Inline if (Proofs/TmplIifParse.lean, TmplIifRender.lean): `next_at_iif`, `iifQuote_parts` (the search for the
+case's closing quote across its `{var:}` operands), `stepIif_print`, the values parsed as segments
+in a state inside an inline container (`stAtC`), `iifAttrs_chain`, `closeIif_gen` with `iif_facts`
+(start id = number of sub tags of the first value; every sub tag inside the value it is rendered
+with), `renderIif_env` (three-valued case decision `case_val_env`, sub tags selected by the start
+ids).
+Super variable (Proofs/TmplSvarParse.lean, TmplSvarRender.lean, EscapeSplit.lean): `next_at_svar`,
+`stepSvar_print`, the arguments parsed as segments inside the container, `parse_svar`; the phrase
+loop `svarLoop` against a structural `{i}` replacement `expPhrase` (`svarLoop_phrase`: the code
+flushes and escapes the pending text at EVERY `{`, the document only when a `{i}` is replaced —
+equal because no entity contains a `{`: `escape_append_brace`), `renderArg_args`, `renderSvar_env`;
+on the reference side `phraseLoop_eq`, which needs the units of a phrase below 2^32 (the code
+computes `unit - '0'` in 32 bits) — hypothesis `hU` over the values reachable in the document
+(`Reach`).  Not covered: `sort=`/`group=`. -/
 theorem render_parse_print_loops {R : Type} [RealLike R] (cx : RCtx R) (sx : SpecCtx R)
     (cfg : ScanCfg R) (bs : GTs) (hg : cx.guardIndexRead = true) (same : SameCtx cx sx)
     (hrn : cfg.readNum = cx.readNum)
     (hc : cx.content = printList (gtsTpl bs)) (hok : bs.ok) (hpath : bs.pathV cfg.readNum [])
     (hcase : bs.caseV cfg.readNum)
+    (hU : ∀ s, Reach cx.root (.str s) → ∀ x ∈ s, x < 2 ^ 32)
     (hn : cx.content.length + 16 < 4294967296) (fuel fuel' : Nat) :
     (parse cfg cx.content).bind (fun tags => renderTop cx tags (rneedGTs cx [] bs + rcostGTs bs + fuel)) =
       .ok (expand sx (gtsTpl bs) (eneedGTs cx [] bs + fuel')) := by
@@ -333,7 +351,7 @@ theorem render_parse_print_loops {R : Type} [RealLike R] (cx : RCtx R) (sx : Spe
   simp only [Except.bind]
   rw [show rneedGTs cx [] bs + rcostGTs bs + fuel = (rneedGTs cx [] bs + fuel) + rcostGTs bs by omega,
     renderTop_gtree cx cfg hg hrn bs hc (by omega) hok hpath hcase _ (by omega), expand, same.eq,
-    expand_gts cx bs [] _ (by omega)]
+    expand_gts cx hU bs [] _ hok (by intro b hb; cases hb) (by omega)]
 
 /-- non-vacuity of the class of `render_parse_print_loops`:
 `<loop set="a" value="v"><if case="{var:v[x]} == 1">{math:{var:v[x]}+1}<else /><loop set="v[l]" value="w">{var:w}{var:v[n]}</loop></if></loop>` -/
@@ -397,6 +415,90 @@ example {R : Type} : treeL.ok ∧ treeL.pathV (rdX (R := R)) [] ∧ treeL.caseV 
   · simp only [treeL, GTs.caseV, GT.caseV, GTail.caseV, and_true]
     refine Or.inr ?_
     intro items h; rw [scanCL] at h; cases h; simp
+
+/-- non-vacuity with an inline if inside a loop over the root:
+`<loop value="v">{if case="{var:v} == 1" true="{var:v}" false="no"}</loop>` -/
+def caseI : List Nat := [123, 118, 97, 114, 58, 118, 125, 32, 61, 61, 32, 49]
+def treeI : GTs :=
+  .cons (.loop [] [118] (.cons (.iif caseI (some [.var [118]]) (some [.text [110, 111]])) .nil)) .nil
+theorem scanCI {R : Type} : parseTop ({ readNum := rdX } : ScanCfg R) (caseI ++ [34]) 0 caseI.length =
+    .ok [(.var ⟨5, 1, 0, 0⟩, .equal), (.num (.nat 1), .noOp)] := by
+  with_unfolding_all rfl
+example {R : Type} : treeI.ok ∧ treeI.pathV (rdX (R := R)) [] ∧ treeI.caseV (rdX (R := R)) := by
+  have hpv : PathOkV [[118]] [118] :=
+    ⟨[118], [], by simp [brk], by simp, (by intro x hx; simp at hx; subst hx; decide), (by intro k hk; cases hk),
+      fun V hV _ => by simp at hV; exact hV.symm⟩
+  refine ⟨?_, ?_, ?_⟩
+  · simp only [treeI, GTs.ok, GT.ok, and_true]
+    refine ⟨⟨(by intro x hx; cases hx), (by intro x hx; cases hx), (by intro x hx; cases hx), (by decide),
+      plain1 118 (by decide), (by decide), (by decide), (by decide)⟩, ?_, by decide, ?_, ?_, Or.inl (by simp), by decide⟩
+    · exact ⟨[([], [118])], [32, 61, 61, 32, 49], by simp [caseI, printMP],
+        (by intro x hx; simp at hx; rcases hx with h | h | h | h <;> subst h <;> (unfold plainU; decide)),
+        (by intro tp htp; simp at htp; subst htp; exact ⟨(by intro x hx; cases hx), plain1 118 (by decide)⟩)⟩
+    · intro l hl; cases hl
+      exact ⟨(by intro s hs; simp at hs; subst hs; exact ⟨plain1 118 (by decide), by simp, by simp⟩), (by decide)⟩
+    · intro l hl; cases hl
+      exact ⟨(by intro s hs; simp at hs; subst hs; intro x hx; simp at hx; rcases hx with h | h <;> subst h <;> (unfold plainU; decide)),
+        (by decide)⟩
+  · simp only [treeI, GTs.pathV, GT.pathV, and_true]
+    refine ⟨fun h => absurd rfl h, ⟨?_, by decide⟩, ?_, ?_⟩
+    · intro items h; rw [scanCI] at h; cases h
+      intro v hv; simp [itemsVars, operandVars] at hv; subst hv
+      exact hpv
+    · intro l hl; cases hl
+      intro s hs; simp at hs; subst hs; exact hpv
+    · intro l hl; cases hl
+      intro s hs; simp at hs; subst hs; trivial
+  · simp [treeI, GTs.caseV, GT.caseV]
+
+/-- non-vacuity with a super variable inside a loop over the root, its arguments a loop variable and
+an expression: `<loop value="v">{svar:t, {var:v}, {math:1+1}}</loop>` -/
+def treeS : GTs :=
+  .cons (.loop [] [118] (.cons (.svar [116] [.var [118], .math [49, 43, 49]]) .nil)) .nil
+theorem scanSv {R : Type} : parseTop ({ readNum := rdX } : ScanCfg R) ([49, 43, 49] ++ [125]) 0 3 =
+    .ok [(.num (.nat 1), .add), (.num (.nat 1), .noOp)] := by
+  with_unfolding_all rfl
+example {R : Type} : treeS.ok ∧ treeS.pathV (rdX (R := R)) [] ∧ treeS.caseV (rdX (R := R)) := by
+  refine ⟨?_, ?_, ?_⟩
+  · simp only [treeS, GTs.ok, GT.ok, and_true]
+    refine ⟨⟨(by intro x hx; cases hx), (by intro x hx; cases hx), (by intro x hx; cases hx), (by decide),
+      plain1 118 (by decide), (by decide), (by decide), (by decide)⟩, plain1 116 (by decide), (by decide), (by decide),
+      (by decide), ?_, (by simp), (by decide)⟩
+    intro a ha; simp at ha
+    rcases ha with h | h <;> subst h
+    · exact ⟨⟨plain1 118 (by decide), by simp, by simp⟩, trivial⟩
+    · exact ⟨⟨[], [49, 43, 49], by simp [printMP],
+        (by intro x hx; simp at hx; rcases hx with h | h | h <;> subst h <;> (unfold plainU; decide)),
+        (by intro tp htp; cases htp)⟩, trivial⟩
+  · simp only [treeS, GTs.pathV, GT.pathV, and_true]
+    refine ⟨fun h => absurd rfl h, ⟨[116], [], by simp [brk], by simp, (by intro x hx; simp at hx; subst hx; decide),
+      (by intro k hk; cases hk), (by intro V hV hp; simp at hV; subst hV; simp [List.isPrefixOf] at hp)⟩,
+      (by intro V hV; simp at hV; subst hV; rfl), ?_⟩
+    intro a ha; simp at ha
+    rcases ha with h | h <;> subst h
+    · exact ⟨[118], [], by simp [brk], by simp, (by intro x hx; simp at hx; subst hx; decide), (by intro k hk; cases hk),
+        fun V hV _ => by simp at hV; exact hV.symm⟩
+    · refine ⟨?_, by decide⟩
+      intro items h
+      rw [show ([49, 43, 49] : List Nat).length = 3 from rfl, scanSv] at h; cases h
+      intro v hv; simp [itemsVars, operandVars] at hv
+  · simp [treeS, GTs.caseV, GT.caseV]
+
+/-- the class of `render_parse_print_loops` as a predicate on templates -/
+def WellFormedT {R : Type} (rn : List Nat → Option (Num R)) (t : List Tpl) : Prop :=
+  ∃ bs : GTs, t = gtsTpl bs ∧ bs.ok ∧ bs.pathV rn [] ∧ bs.caseV rn
+
+/-- `RenderParsePrint` for the templates of the class (every node kind of `Tpl`): some fuel on each
+side makes parse + render print the documented expansion -/
+theorem render_parse_print_wf {R : Type} [RealLike R] (cx : RCtx R) (sx : SpecCtx R)
+    (cfg : ScanCfg R) (t : List Tpl) (hg : cx.guardIndexRead = true) (same : SameCtx cx sx)
+    (hrn : cfg.readNum = cx.readNum) (hwf : WellFormedT cfg.readNum t)
+    (hc : cx.content = printList t)
+    (hU : ∀ s, Reach cx.root (.str s) → ∀ x ∈ s, x < 2 ^ 32)
+    (hn : cx.content.length + 16 < 4294967296) :
+    ∃ fuel fuel', (parse cfg cx.content).bind (fun tags => renderTop cx tags fuel) = .ok (expand sx t fuel') := by
+  obtain ⟨bs, rfl, hok, hpath, hcase⟩ := hwf
+  exact ⟨_, _, render_parse_print_loops cx sx cfg bs hg same hrn hc hok hpath hcase hU hn 0 0⟩
 
 /-- side conditions under which the document determines the output (the generator of
 `checks/c02.py` produces exactly such templates) — informal list kept next to the statement:
